@@ -163,6 +163,7 @@ func inlineRound(pkgs []*packages.Package, readFile func(abs string) ([]byte, er
 					continue
 				}
 				ix.caller, _ = p.TypesInfo.Defs[fd.Name].(*types.Func)
+				ix.exprPass(fd.Body)
 				ix.block(fd.Body.List)
 			}
 			if len(ix.out) > 0 {
@@ -312,6 +313,7 @@ type inliner struct {
 	helpers map[types.Object]*inlineHelper
 	caller  *types.Func
 	counter *int
+	exprDone map[*ast.CallExpr]bool
 	readFile func(string) ([]byte, error)
 	out     []splice
 	imports []string
@@ -324,6 +326,9 @@ func (ix *inliner) text(from, to token.Pos) string {
 
 // helperOf resolves a call expression to a helper of this package (nil otherwise).
 func (ix *inliner) helperOf(call *ast.CallExpr) *inlineHelper {
+	if ix.exprDone[call] {
+		return nil
+	}
 	var id *ast.Ident
 	switch f := call.Fun.(type) {
 	case *ast.Ident:
@@ -638,14 +643,18 @@ func (ix *inliner) expansion(call *ast.CallExpr, h *inlineHelper, nres int, temp
 		return "", false // pkg.F from another package
 	}
 	k := 0
+	// each argument is converted to its parameter type, as the call would (untyped constants, nil, interface boxing)
+	argText := func(k int) string {
+		return "(" + types.TypeString(sig.Params().At(k).Type(), qual) + ")(" + ix.text(call.Args[k].Pos(), call.Args[k].End()) + ")"
+	}
 	for _, fl := range h.ftype.Params.List {
 		if len(fl.Names) == 0 {
-			names, vals = append(names, "_"), append(vals, ix.text(call.Args[k].Pos(), call.Args[k].End()))
+			names, vals = append(names, "_"), append(vals, argText(k))
 			k++
 			continue
 		}
 		for _, nm := range fl.Names {
-			names, vals = append(names, nm.Name), append(vals, ix.text(call.Args[k].Pos(), call.Args[k].End()))
+			names, vals = append(names, nm.Name), append(vals, argText(k))
 			k++
 		}
 	}
@@ -914,4 +923,193 @@ func blankUnusedImports(text string, orig *ast.File, p *packages.Package) string
 		text = text[:x.from] + x.text + text[x.to:]
 	}
 	return text
+}
+
+// exprPass: a helper whose body is a single `return <expr>` and whose arguments at the call are plain names, selector
+// chains or literals is substituted as an expression — wherever the call stands (conditions, case clauses, loop
+// conditions), keeping short-circuit evaluation as written in the helper.
+func (ix *inliner) exprPass(body *ast.BlockStmt) {
+	if ix.exprDone == nil {
+		ix.exprDone = map[*ast.CallExpr]bool{}
+	}
+	var inner func(n ast.Node) bool
+	inner = func(n ast.Node) bool {
+		call, ok := n.(*ast.CallExpr)
+		if !ok {
+			return true
+		}
+		h := ix.helperOf(call)
+		if h == nil {
+			return true
+		}
+		text, ok := ix.exprExpansion(call, h)
+		if !ok {
+			return true
+		}
+		ix.exprDone[call] = true
+		end := ix.tf.Position(call.End())
+		text += fmt.Sprintf("/*line :%d:%d*/", end.Line, end.Column)
+		ix.out = append(ix.out, splice{ix.tf.Offset(call.Pos()), ix.tf.Offset(call.End()), text})
+		h.done++
+		ix.log = append(ix.log, fmt.Sprintf("inline: %s substituted as an expression in %s", h.name, funcKey(ix.caller)))
+		return false // nested helper calls inside the arguments wait for the next round
+	}
+	ast.Inspect(body, inner)
+}
+
+func simpleOperand(e ast.Expr) bool {
+	switch x := e.(type) {
+	case *ast.Ident, *ast.BasicLit:
+		return true
+	case *ast.SelectorExpr:
+		return simpleOperand(x.X)
+	case *ast.ParenExpr:
+		return simpleOperand(x.X)
+	case *ast.StarExpr:
+		return simpleOperand(x.X)
+	case *ast.UnaryExpr:
+		return x.Op != token.ARROW && simpleOperand(x.X)
+	case *ast.IndexExpr:
+		return simpleOperand(x.X) && simpleOperand(x.Index) // a pure read (it may be evaluated more than once)
+	}
+	return false
+}
+
+func (ix *inliner) exprExpansion(call *ast.CallExpr, h *inlineHelper) (string, bool) {
+	if len(h.body.List) != 1 || h.sig.Results().Len() != 1 || call.Ellipsis.IsValid() || len(call.Args) != h.sig.Params().Len() {
+		return "", false
+	}
+	ret, ok := h.body.List[0].(*ast.ReturnStmt)
+	if !ok || len(ret.Results) != 1 {
+		return "", false
+	}
+	hasLit := false
+	ast.Inspect(ret.Results[0], func(n ast.Node) bool {
+		if _, isLit := n.(*ast.FuncLit); isLit {
+			hasLit = true
+		}
+		return true
+	})
+	if hasLit {
+		return "", false
+	}
+	for _, a := range call.Args {
+		if !simpleOperand(a) {
+			return "", false
+		}
+	}
+	qual := ix.qualifier()
+	// parameter objects -> replacement text
+	repl := map[types.Object]string{}
+	k := 0
+	for _, fl := range h.ftype.Params.List {
+		for _, nm := range fl.Names {
+			if o := h.pkg.TypesInfo.Defs[nm]; o != nil {
+				repl[o] = "(" + types.TypeString(h.sig.Params().At(k).Type(), qual) + ")(" + ix.text(call.Args[k].Pos(), call.Args[k].End()) + ")"
+			}
+			k++
+		}
+		if len(fl.Names) == 0 {
+			k++
+		}
+	}
+	var names []string
+	if h.sig.Recv() != nil && h.lit == nil {
+		sel, ok := call.Fun.(*ast.SelectorExpr)
+		if !ok || !simpleOperand(sel.X) {
+			return "", false
+		}
+		selection := ix.p.TypesInfo.Selections[sel]
+		if selection == nil || len(selection.Index()) != 1 || selection.Kind() != types.MethodVal {
+			return "", false
+		}
+		x := ix.text(sel.X.Pos(), sel.X.End())
+		_, recvPtr := h.sig.Recv().Type().(*types.Pointer)
+		_, xPtr := ix.p.TypesInfo.TypeOf(sel.X).Underlying().(*types.Pointer)
+		switch {
+		case recvPtr && !xPtr:
+			x = "(&(" + x + "))"
+		case !recvPtr && xPtr:
+			x = "(*(" + x + "))"
+		default:
+			x = "(" + x + ")"
+		}
+		if r := h.recv; r != nil && len(r.List) == 1 && len(r.List[0].Names) == 1 {
+			if o := h.pkg.TypesInfo.Defs[r.List[0].Names[0]]; o != nil {
+				repl[o] = x
+			}
+		}
+	} else if _, isSel := call.Fun.(*ast.SelectorExpr); isSel {
+		return "", false
+	}
+	// parameters must not be assigned or have their address taken in the expression (plain reads only)
+	okReads := true
+	ast.Inspect(ret.Results[0], func(n ast.Node) bool {
+		if u, isU := n.(*ast.UnaryExpr); isU && u.Op == token.AND {
+			if id, isID := u.X.(*ast.Ident); isID && repl[h.pkg.TypesInfo.Uses[id]] != "" {
+				okReads = false
+			}
+		}
+		return true
+	})
+	if !okReads {
+		return "", false
+	}
+	fixes, ok := ix.captureFixes(call.Pos(), h, names, nil)
+	if !ok {
+		return "", false
+	}
+	htf := h.pkg.Fset.File(h.file.Pos())
+	hfname := h.pkg.Fset.Position(h.file.Pos()).Filename
+	hsrc := ix.src
+	if hfname != ix.tf.Name() {
+		b, err := ix.readFile(hfname)
+		if err != nil || len(b) != htf.Size() {
+			return "", false
+		}
+		hsrc = b
+	}
+	type rep struct {
+		from, to int
+		text     string
+	}
+	var reps []rep
+	for _, fx := range fixes {
+		reps = append(reps, rep{htf.Offset(fx.id.Pos()), htf.Offset(fx.id.End()), fx.name})
+	}
+	ast.Inspect(ret.Results[0], func(n ast.Node) bool {
+		// do not rewrite the field name of a selector or a composite-literal key
+		if sel, isSel := n.(*ast.SelectorExpr); isSel {
+			ast.Inspect(sel.X, func(m ast.Node) bool { return true })
+		}
+		id, isID := n.(*ast.Ident)
+		if !isID {
+			return true
+		}
+		if t := repl[h.pkg.TypesInfo.Uses[id]]; t != "" {
+			reps = append(reps, rep{htf.Offset(id.Pos()), htf.Offset(id.End()), t})
+		}
+		return true
+	})
+	sort.Slice(reps, func(i, j int) bool { return reps[i].from < reps[j].from })
+	from, to := htf.Offset(ret.Results[0].Pos()), htf.Offset(ret.Results[0].End())
+	var sb strings.Builder
+	sb.WriteString("(")
+	pos := from
+	for _, r := range reps {
+		if r.from < pos || r.to > to {
+			continue
+		}
+		sb.Write(hsrc[pos:r.from])
+		sb.WriteString(r.text)
+		pos = r.to
+	}
+	sb.Write(hsrc[pos:to])
+	sb.WriteString(")")
+	// keep it on one line: comments inside the expression would swallow the rest
+	out := sb.String()
+	if strings.Contains(out, "//") {
+		return "", false
+	}
+	return strings.ReplaceAll(out, "\n", " "), true
 }
